@@ -207,7 +207,7 @@ func (c11) Gen(t *Tape, tier string, run int) interface{} {
 	// edits, binary index formats more length-field edits
 	switch c.Target {
 	case "sam", "fai", "fasta":
-		kinds = []string{"bitflip", "subst", "truncate", "drop-bytes", "dup-bytes", "set-delim", "ins-delim", "zero-number", "zero-number", "zero-number", "dup-tail"}
+		kinds = []string{"bitflip", "subst", "truncate", "drop-bytes", "dup-bytes", "set-delim", "ins-delim", "zero-number", "zero-number", "zero-number", "dup-tail", "big-number", "big-number"}
 	case "bai", "csi", "tabix":
 		kinds = append(kinds, "int32-edit", "int32-edit", "int32-edit")
 	case "bam-inner":
@@ -283,6 +283,21 @@ func applyFaults(img []byte, fs []StoreFault) ([]byte, []bool) {
 		case "aux-retype":
 			// structural, BAM streams only (see bamStream); a bit flip elsewhere
 			out[a] ^= 1 << uint(f.B%8)
+		case "big-number":
+			// the decimal number at or after position a becomes a value near
+			// the limits of 32 and 64 bit arithmetic
+			i := a
+			for i < len(out) && (out[i] < '0' || out[i] > '9') {
+				i++
+			}
+			j := i
+			for j < len(out) && out[j] >= '0' && out[j] <= '9' {
+				j++
+			}
+			if j > i {
+				v := []string{"4611686018427387904", "9223372036854775807", "2147483648", "4294967296", "1152921504606846976"}[f.B%5]
+				out = append(out[:i], append([]byte(v), out[j:]...)...)
+			}
 		case "zero-number":
 			// a length-field edit for text formats: the decimal number at or
 			// after position a becomes 0
@@ -716,6 +731,23 @@ func decode(x *Exec, c *c11Case, file *File) (outcome string) {
 			}
 		}
 	case "sam":
+		// every record line also through the header-less parser, whose
+		// records refer to a made-up reference, and on to the index builders
+		var fidx bam.Index
+		cidx := csi.New(0, 0)
+		for k, line := range bytes.Split(file.Data, []byte{'\n'}) {
+			if k > 200 {
+				break
+			}
+			if len(line) == 0 || line[0] == '@' {
+				continue
+			}
+			var r sam.Record
+			if r.UnmarshalText(line) == nil {
+				exerciseRecord(&r, nil, nil, &fidx)
+				cidx.Add(&r, bgzf.Chunk{Begin: bgzf.Offset{File: 10}, End: bgzf.Offset{File: 20}}, true, true)
+			}
+		}
 		sr, err := sam.NewReader(rdr)
 		if err != nil {
 			return "open:" + errKind(err)
